@@ -12,8 +12,8 @@
    - after a splice both sides stand on the same clean path, at two positions one of which is a prefix
      of the other: the one behind catches up by re-walking a directory walk ([search_rewalk],
      [kwalk_rewalk]).
-   Both give up at the 41st link (slCountMax = MAXSYMLINKS = 40).  One corner remains, characterised exactly
-   ([lstat_corner]): the implementation counts a final link before deciding not to follow it. *)
+   Both give up at the 41st link they would FOLLOW (slCountMax = MAXSYMLINKS = 40; a final link that is not
+   followed does not count, on either side): ELOOP is part of the agreement, no side condition is left. *)
 From Avfs Require Import Base PathModel PathSpec PathProofs PathCleanProofs PathIterProofs.
 From Avfs Require Import MemFS MemFile World Posix WalkBridge.
 
@@ -158,9 +158,10 @@ Record walk_wf (h : heap) : Prop := {
   ww_acyclic : forall d, ~ dreachp h d d
 }.
 
-(* every stored link target is a cleaned string, as [symlink] stores it *)
+(* the target of every link that has a NAME (a directory entry pointing to it) is a cleaned string, as [symlink]
+   stores it.  Unnamed link nodes are garbage - [delete_node] blanks their target - and are never met by a walk. *)
 Definition links_clean (h : heap) : Prop :=
-  forall i t m, get h i = Some (NSym t m) -> exists x, t = clean Linux x.
+  forall d n i t m, dedge h d n i -> get h i = Some (NSym t m) -> exists x, t = clean Linux x.
 
 Lemma alookup_in (V : Type) (k : str) (m : list (str * V)) (x : V) : alookup str_eqb k m = Some x -> In (k, x) m.
 Proof.
@@ -316,16 +317,6 @@ Section Sym.
   Variable slm : slmode.
   Notation follow := (negb (slmode_eqb slm SlLstat)).
 
-  (* the one remaining difference of the two budgets (both 40): the implementation counts a final link BEFORE it
-     decides not to follow it (Lstat mode), the kernel counts only the links it follows; it shows when exactly
-     MAXSYMLINKS links were crossed on the way to a final link that is not followed *)
-  Definition lstat_corner (r : sres) (K : wres) : Prop :=
-    slm = SlLstat /\ sr_err r = ETooManySymlinks /\
-    exists par name n t m, K = WNode par LNorm name n /\ get h n = Some (NSym t m)
-                           /\ sr_child r = Some n /\ sr_parent r = Some par.
-  Definition walk_rel' (r : sres) (K : wres) : Prop :=
-    walk_rel h u root (precise_of slm) r K \/ lstat_corner r K.
-
   (* both walks stand at the end of the directory walk [done] of the clean path [done ++ todo] *)
   Definition sync_goal (fk : nat) : Prop :=
     forall fi (done todo : list str) parent pi slcount saved K,
@@ -333,7 +324,7 @@ Section Sym.
       dwalk h u root done = Some parent -> (precise_of slm = true -> saved = None) -> slcount <= MAXSYMLINKS ->
       kwalk fk h u root false follow parent todo slcount false = K -> K <> WErr EFUEL ->
       sr_err (search_loop fi h v slm root parent pi slcount saved) <> EFuel ->
-      walk_rel' (search_loop fi h v slm root parent pi slcount saved) K.
+      walk_rel h u root (precise_of slm) (search_loop fi h v slm root parent pi slcount saved) K.
 
   (* the two walks stand at two positions of the same clean path, one a prefix of the other: the one
      behind catches up *)
@@ -345,7 +336,7 @@ Section Sym.
       (precise_of slm = true -> saved = None) -> slcount <= MAXSYMLINKS ->
       kwalk fk h u root false follow nk tk slcount false = K -> K <> WErr EFUEL ->
       sr_err (search_loop fi h v slm root ni pi' slcount saved) <> EFuel ->
-      walk_rel' (search_loop fi h v slm root ni pi' slcount saved) K.
+      walk_rel h u root (precise_of slm) (search_loop fi h v slm root ni pi' slcount saved) K.
   Proof.
     intros fi cs' di ti dk tk ni nk pi' slcount saved K Hi Hk Htk Hg Hb Hdi Hdk Hpos Hsv Hsl HK Hk1 Hnf.
     assert (Hok : Forall comp_ok cs') by (apply Forall_comp_ok_of; exact Hg).
@@ -401,14 +392,14 @@ Section Sym.
     { intros Hpr _. rewrite (Hsv Hpr). cbn [out_pi]. destruct (on_comp_views done [] c) as (_ & _ & _ & _ & _ & Vl). exact Vl. }
     destruct (alookup str_eqb c (children h parent)) as [n|] eqn:Hl.
     2:{ intros _ _. destruct todo as [|c2 todo]; cbn [is_nil].
-        - left. cbn. repeat split; auto.
-        - left. cbn. split.
+        - cbn. repeat split; auto.
+        - cbn. split.
           + right. split; [auto|reflexivity].
           + intros Hpr _. rewrite (Hsv Hpr). cbn [out_pi]. apply on_comp_last_false. discriminate. }
     destruct (get h n) as [[ch m|dt k i m|t m]|] eqn:Hgn.
     - (* a directory *)
       destruct todo as [|c2 todo]; cbn [is_nil].
-      + intros _ _. left. cbn. repeat split; eauto; unfold get in *; congruence.
+      + intros _ _. cbn. repeat split; eauto; unfold get in *; congruence.
       + assert (Hpn : kperm h n 1 u = check_permission m OpenLookup u) by (apply (kperm_dir _ _ _ _ u Hgn)).
         assert (Hnd : node_is_dir h n = true) by (unfold node_is_dir; rewrite Hgn; reflexivity).
         destruct (check_permission m OpenLookup u) eqn:Hcp.
@@ -418,32 +409,28 @@ Section Sym.
           -- rewrite <- app_assoc. apply on_comp_before.
           -- apply (dwalk_snoc _ _ _ _ _ _ _ Hw Hl); assumption.
         * destruct fk as [|fk]; [cbn [kwalk]; congruence|]. intros _ _.
-          rewrite kwalk_S, Hnd, Hpn. cbn [negb]. left. cbn.
+          rewrite kwalk_S, Hnd, Hpn. cbn [negb]. cbn.
           split; [|intros _ [=]]. right. split; [auto|reflexivity].
     - (* a file *)
       intros _ _. destruct todo as [|c2 todo]; cbn [is_nil].
-      + left. cbn. repeat split; eauto; unfold get in *; congruence.
-      + left. cbn. split; [|intros _ [=]]. right. split; [auto|reflexivity].
+      + cbn. repeat split; eauto; unfold get in *; congruence.
+      + cbn. split; [|intros _ [=]]. right. split; [auto|reflexivity].
     - (* a symbolic link *)
-      destruct (Hlc n t m Hgn) as (x & Ht).
+      destruct (Hlc parent c n t m (alookup_in _ _ _ _ Hl) Hgn) as (x & Ht).
       pose proof (clean_shape_clean x) as Hsh. pose proof (clean_nonempty x) as Htn. rewrite <- Ht in Hsh, Htn.
-      destruct (Nat.ltb slCountMax (S slcount)) eqn:Hbud.
-      { (* the 41st link: the implementation refuses; so does the kernel if it was going to follow it *)
-        apply Nat.ltb_lt in Hbud. assert (Hcnt : Nat.leb MAXSYMLINKS slcount = true)
-          by (apply Nat.leb_le; unfold slCountMax, MAXSYMLINKS in *; lia).
-        rewrite Hcnt. intros _ _.
-        destruct (negb (is_nil todo) || negb (slmode_eqb slm SlLstat) || false) eqn:Hfol.
-        - left. cbn. split; [|intros _ [=]]. right. split; [auto|reflexivity].
-        - right. apply orb_false_elim in Hfol as (Hfol & _). apply orb_false_elim in Hfol as (Hf1 & Hf2).
-          apply negb_false_iff in Hf2. split; [destruct slm; try discriminate Hf2; reflexivity|].
-          split; [reflexivity|]. exists parent, c, n, t, m. auto. }
       destruct (is_nil todo && slmode_eqb slm SlLstat) eqn:Hnofollow.
-      { (* final component, lstat mode: the link itself *)
+      { (* final component, lstat mode: the link itself, whatever the count *)
         apply andb_true_iff in Hnofollow as (Hl1 & Hl2). rewrite Hl1, Hl2. cbn [negb orb]. intros _ _.
-        destruct todo; [|discriminate]. left. cbn. repeat split; eauto; unfold get in *; congruence. }
+        destruct todo; [|discriminate]. cbn. repeat split; eauto; unfold get in *; congruence. }
       assert (Hfol : negb (is_nil todo) || negb (slmode_eqb slm SlLstat) || false = true).
       { destruct (is_nil todo), (slmode_eqb slm SlLstat); cbn in *; congruence. }
-      rewrite Hfol. apply Nat.ltb_ge in Hbud.
+      rewrite Hfol.
+      destruct (Nat.ltb slCountMax (S slcount)) eqn:Hbud.
+      { (* the 41st link to follow: both refuse *)
+        apply Nat.ltb_lt in Hbud. assert (Hcnt : Nat.leb MAXSYMLINKS slcount = true)
+          by (apply Nat.leb_le; unfold slCountMax, MAXSYMLINKS in *; lia).
+        rewrite Hcnt. intros _ _. cbn. split; [|intros _ [=]]. right. split; [auto|reflexivity]. }
+      apply Nat.ltb_ge in Hbud.
       assert (Hcnt : Nat.leb MAXSYMLINKS slcount = false)
         by (apply Nat.leb_gt; unfold slCountMax, MAXSYMLINKS in *; lia).
       rewrite Hcnt. apply Nat.leb_gt in Hcnt.
@@ -471,7 +458,7 @@ Section Sym.
           2:{ apply resumes_longer in Hres. cbn [length] in Hres. lia. }
           destruct fi as [|fi]; [cbn [search_loop sr_err]; congruence|]. intros _.
           rewrite (search_loop_end h v Hos fi slm root root pi2 (S slcount) saved' [] Hok' Hb2).
-          left. cbn [walk_rel sr_err sr_child sr_parent sr_pi]. split; [reflexivity|]. split; [reflexivity|].
+          cbn [walk_rel sr_err sr_child sr_parent sr_pi]. split; [reflexivity|]. split; [reflexivity|].
           split; [apply node_is_dir_valid; exact Hrd|]. split; [eauto|].
           split; [intros Hpr; rewrite (Hsv' Hpr); reflexivity|]. intros [=].
         * assert (Hmd : is_nil todo && ktrailing (abs_path lc) = false).
@@ -505,7 +492,7 @@ Section Sym.
           rewrite <- Ecs in Hp1.
           destruct (search_rewalk_full h v Hos cs' root p [] cs' fi slm root pi2 (S slcount) saved' eq_refl Hok' Hb2 Hp1 Hrp)
             as (R1 & R2 & R3 & R4).
-          left. cbn. change (S (length cs') + fi) with (S (length cs' + fi)).
+          cbn. change (S (length cs') + fi) with (S (length cs' + fi)).
           split; [exact R1|]. split; [exact R2|].
           split; [apply node_is_dir_valid; exact (proj1 (dwalk_end_dir _ _ _ _ _ Hp1 Hrd Hrp))|].
           split; [exact R3|]. split; [intros Hpr; apply R4; [exact (Hsv' Hpr)|reflexivity]|]. intros [=].
@@ -537,7 +524,7 @@ Section Sym.
           rewrite <- Hm2. rewrite <- Ecs in Hw.
           destruct (search_rewalk_full h v Hos cs' root parent [] cs' fi slm root pi2 (S slcount) saved' eq_refl Hok' Hb2 Hw Hrp)
             as (R1 & R2 & R3 & R4).
-          left. cbn. change (S (length cs') + fi) with (S (length cs' + fi)).
+          cbn. change (S (length cs') + fi) with (S (length cs' + fi)).
           split; [exact R1|]. split; [exact R2|]. split; [apply node_is_dir_valid; exact Hd|].
           split; [exact R3|]. split; [intros Hpr; apply R4; [exact (Hsv' Hpr)|reflexivity]|]. intros [=].
         * intros Hk1 Hnf.
@@ -563,11 +550,11 @@ Theorem sym_bridge (h : heap) (v : view) (slm : slmode) (cs : list str) (fi fk :
   let K := kwalk fk h (v_user v) (v_root v) false (follow_of slm) (v_root v) cs 0 md in
   let r := search_loop fi h v slm (v_root v) (v_root v) (pi_new Linux (abs_path cs)) 0 None in
   K <> WErr EFUEL -> sr_err r <> EFuel ->
-  walk_rel h (v_user v) (v_root v) (precise_of slm) r K \/ lstat_corner h slm r K.
+  walk_rel h (v_user v) (v_root v) (precise_of slm) r K.
 Proof.
   intros Hos Hwf Hlc Hrd Hg Hmd K r. subst K r. destruct cs as [|c cs].
   - destruct fk as [|fk]; [cbn [kwalk]; congruence|]. destruct fi as [|fi]; [cbn [search_loop sr_err]; congruence|].
-    intros _ _. left.
+    intros _ _.
     rewrite (search_loop_end h v Hos fi slm (v_root v) (v_root v) _ 0 None [] (Forall_nil _) (pi_new_before [])).
     rewrite kwalk_S. cbn [walk_rel sr_err sr_child sr_parent]. split; [reflexivity|]. split; [reflexivity|].
     split; [apply node_is_dir_valid; exact Hrd|]. split; [eauto|]. split; [reflexivity|]. intros [=].
@@ -579,17 +566,12 @@ Proof.
       * unfold MAXSYMLINKS. lia.
     + (* the caller may not search the root: both walks stop at once *)
       destruct fk as [|fk]; [cbn [kwalk]; congruence|]. destruct fi as [|fi]; [cbn [search_loop sr_err]; congruence|].
-      intros _ _. left.
+      intros _ _.
       assert (Hok : Forall comp_ok (c :: cs)) by (apply Forall_comp_ok_of; exact Hg).
       rewrite (search_loop_on h v Hos fi slm (v_root v) (v_root v) _ 0 None [] cs c Hok (pi_new_before (c :: cs))). cbv zeta.
       rewrite root_check_kperm, Nat.eqb_refl, Hrp. rewrite kwalk_S, Hrd, Hrp. cbn.
       split; [|intros _ [=]]. right. split; [auto|reflexivity].
 Qed.
-
-(* in the following modes (Stat, EvalSymlinks, Open, Chmod, ...) there is no exception *)
-Lemma lstat_corner_follow (h : heap) (slm : slmode) (r : sres) (K : wres) :
-  slmode_eqb slm SlLstat = false -> ~ lstat_corner h slm r K.
-Proof. intros Hs (-> & _). discriminate Hs. Qed.
 
 Theorem sym_bridge_lookup (s : fsys) (sv : sview) (slm : slmode) (cs : list str) :
   let v := sv_view sv in
@@ -599,27 +581,11 @@ Theorem sym_bridge_lookup (s : fsys) (sv : sview) (slm : slmode) (cs : list str)
   let K := klookup s sv false (follow_of slm) (abs_path cs) in
   let r := search_node s v (abs_path cs) slm in
   K <> WErr EFUEL -> sr_err r <> EFuel ->
-  walk_rel h (v_user v) (v_root v) (precise_of slm) r K \/ lstat_corner h slm r K.
+  walk_rel h (v_user v) (v_root v) (precise_of slm) r K.
 Proof.
   intros v h Hos Hwf Hlc Hrd Hg K r. subst K r.
   rewrite (search_node_abs_path s v cs slm Hos Hg), (klookup_abs_path s sv false (follow_of slm) cs Hg).
   apply sym_bridge; auto. destruct cs; [right; reflexivity|left; reflexivity].
-Qed.
-
-Theorem sym_bridge_lookup_follow (s : fsys) (sv : sview) (slm : slmode) (cs : list str) :
-  let v := sv_view sv in
-  let h := f_heap s in
-  v_os v = Linux -> walk_wf h -> links_clean h -> node_is_dir h (v_root v) = true ->
-  Forall good_comp cs -> slmode_eqb slm SlLstat = false ->
-  let K := klookup s sv false true (abs_path cs) in
-  let r := search_node s v (abs_path cs) slm in
-  K <> WErr EFUEL -> sr_err r <> EFuel ->
-  walk_rel h (v_user v) (v_root v) (precise_of slm) r K.
-Proof.
-  intros v h Hos Hwf Hlc Hrd Hg Hs K r Hk Hnf. subst K r.
-  assert (Ef : follow_of slm = true) by (unfold follow_of; rewrite Hs; reflexivity).
-  pose proof (sym_bridge_lookup s sv slm cs Hos Hwf Hlc Hrd Hg) as B. cbv zeta in B. rewrite Ef in B.
-  destruct (B Hk Hnf) as [B1|B2]; [exact B1|]. exfalso. exact (lstat_corner_follow _ _ _ _ Hs B2).
 Qed.
 
 (* ---- non-vacuity and the budget witness ---------------------------------------------------- *)
@@ -653,8 +619,8 @@ Module WalkSymExamples.
     /\ klookup (chain_fs 41) (sv_of adminv) false true (abs_path [nm 0]) = WErr ELOOP.
   Proof. vm_compute. split; reflexivity. Qed.
 
-  (* the remaining corner: 40 links crossed on the way to a directory, then Lstat of a link in it - the kernel does
-     not count a link it does not follow, the implementation tests its counter before the no-follow test.
+  (* a link that is NOT followed does not count: 40 links crossed on the way to a directory, then Lstat of a link
+     in it, answers the link on both sides (before the repo fix the implementation answered ELOOP here).
      Heap: root { nm 0 .. nm 39 : links, nm i -> nm (i+1), nm 39 -> "D" ; "D" : directory { "x" : link } } *)
   Definition s_D : str := [68%N]. Definition s_X : str := [120%N].
   Definition corner_heap (n : nat) : heap :=
@@ -669,9 +635,9 @@ Module WalkSymExamples.
     /\ klookup (corner_fs 39) (sv_of adminv) false false (abs_path [nm 0; s_X]) = WNode 40 LNorm s_X 41.
   Proof. vm_compute. split; [split|]; reflexivity. Qed.
 
-  Example lstat_corner_witness :
+  Example lstat_after_40_links :
     (let r := search_node (corner_fs 40) adminv (abs_path [nm 0; s_X]) SlLstat in
-     sr_err r = ETooManySymlinks /\ sr_child r = Some 42)
+     sr_err r = EFileExists /\ sr_child r = Some 42)
     /\ klookup (corner_fs 40) (sv_of adminv) false false (abs_path [nm 0; s_X]) = WNode 41 LNorm s_X 42.
   Proof. vm_compute. split; [split|]; reflexivity. Qed.
 
@@ -775,7 +741,7 @@ Module WalkSymNonVacuity.
   Qed.
   Example tree_links_clean : links_clean tree.
   Proof.
-    intros i t m. unfold get.
+    intros d0 n0 i t m _. unfold get.
     do 14 (destruct i as [|i];
            [cbn [nth_error tree]; intros E; try discriminate E; injection E as <- _;
             match goal with |- exists x, ?t = _ => exists t end; vm_compute; reflexivity|]).
@@ -787,13 +753,12 @@ Module WalkSymNonVacuity.
       (search_node tree_fs alicev (abs_path [s_abs; s_top; s_e; s_f]) SlEval)
       (klookup tree_fs (sv_of alicev) false true (abs_path [s_abs; s_top; s_e; s_f])).
   Proof.
-    apply (sym_bridge_lookup_follow tree_fs (sv_of alicev) SlEval [s_abs; s_top; s_e; s_f]).
+    apply (sym_bridge_lookup tree_fs (sv_of alicev) SlEval [s_abs; s_top; s_e; s_f]).
     - reflexivity.
     - exact tree_wf.
     - exact tree_links_clean.
     - reflexivity.
     - repeat constructor; try discriminate; intros x [<-|[]]; discriminate.
-    - reflexivity.
     - vm_compute; discriminate.
     - vm_compute; discriminate.
   Qed.
